@@ -257,6 +257,9 @@ func main() {
 		v     Violation
 		count int
 		file  string
+		alts  []Violation // further counterexamples of the same clause with other shapes (vf.Choice decisions)
+		afile []string
+		sigs  map[string]bool
 	}
 	groups := map[string]*group{}
 	var gkeys []string
@@ -264,9 +267,13 @@ func main() {
 		k := v.Harness + "|" + v.Clause + "|" + v.Finding
 		if g, ok := groups[k]; ok {
 			g.count++
+			if sig := shapeSig(v); !g.sigs[sig] && len(g.alts) < 7 {
+				g.sigs[sig] = true
+				g.alts = append(g.alts, v)
+			}
 			continue
 		}
-		groups[k] = &group{v: v, count: 1}
+		groups[k] = &group{v: v, count: 1, sigs: map[string]bool{shapeSig(v): true}}
 		gkeys = append(gkeys, k)
 	}
 	sort.Strings(gkeys)
@@ -280,6 +287,13 @@ func main() {
 		js, _ := json.MarshalIndent(g.v, "", " ")
 		os.WriteFile(g.file, js, 0o644)
 		files = append(files, g.file)
+		for a, av := range g.alts {
+			af := filepath.Join(outDir, fmt.Sprintf("cex_%02d_%s_%s.alt%d.json", i, g.v.Harness, sanitize(g.v.Clause), a))
+			js, _ := json.MarshalIndent(av, "", " ")
+			os.WriteFile(af, js, 0o644)
+			g.afile = append(g.afile, af)
+			files = append(files, af)
+		}
 	}
 	var witFiles []string
 	for i, w := range wits {
@@ -324,6 +338,16 @@ func main() {
 	for _, k := range gkeys {
 		g := groups[k]
 		st := status[g.file]
+		// a counterexample of another shape may reproduce where the first one does not (e.g. when the first
+		// depends on the relative order of two bech32 strings, which the model does not share with real bech32)
+		if !strings.HasPrefix(st, "REPRODUCED") {
+			for _, af := range g.afile {
+				if strings.HasPrefix(status[af], "REPRODUCED") {
+					st, g.file = status[af], af
+					break
+				}
+			}
+		}
 		switch {
 		case *noReplay:
 			lines = append(lines, fmt.Sprintf("COUNTEREXAMPLE (not replayed) harness=%s clause=%s finding=%s file=%s", g.v.Harness, g.v.Clause, g.v.Finding, g.file))
@@ -483,6 +507,18 @@ func trimModel(m map[string]string, n int) map[string]string {
 		out[k] = m[k]
 	}
 	return out
+}
+
+// shapeSig: the shape of a counterexample = its vf.Choice decisions and the values of its boolean inputs
+func shapeSig(v Violation) string {
+	var bs []string
+	for k, val := range v.Model {
+		if val == "true" || val == "false" {
+			bs = append(bs, k+"="+val)
+		}
+	}
+	sort.Strings(bs)
+	return fmt.Sprint(v.Choices) + strings.Join(bs, ",")
 }
 
 func keysOf(m map[string]bool) []string {
